@@ -115,6 +115,10 @@ func VH_BodyTotal() {
 		t = AuditMessageType(vU16("type"))
 	}
 	body := vASCII("body", n)
+	if vParam("avc", 0) != 0 {
+		// an SELinux AVC line with the middle part unknown (permission set present, absent, damaged)
+		body = "avc:  denied  " + body + "for  pid=1 comm=\"x\" scontext=a:b:c:s0 tcontext=d:e:f:s0 tclass=file"
+	}
 	hdr := "audit(1.000:1): "
 	if vParam("bare", 0) != 0 {
 		hdr = "audit(1.000:1)" // the body follows the header directly: Data() may find no content
